@@ -422,6 +422,19 @@ def discharge_maypanic(A, bb, path, args, t):
                 j = G.entails(facts, ("cmp", "Ge", a0[2][0], a0[2][1]))
                 if j is not None:
                     return "checked_sub cannot fail: %s" % [G.show(facts[i]) for i in j[1]]
+    if path == "core::slice::<impl [T]>::split_at" and len(args) == 2:
+        # panics iff mid > len
+        facts = A.g.facts_at(bb)
+        ln = ("len", G.strip(args[0]))
+        if G.entails(facts, ("cmp", "Le", args[1], ln)) is not None:
+            return "mid <= len by facts"
+        # len % mid == 0 (so mid != 0) and len != 0  =>  len >= mid
+        nf = [G.N(f) for f in facts]
+        div = ("cmp", "Eq", ("bin", "Rem", G.N(ln), G.N(args[1])), ("c", 0))
+        nonzero = any(f in (("cmp", "Ne", G.N(ln), ("c", 0)), ("cmp", "Gt", G.N(ln), ("c", 0))) for f in nf) or \
+            G.entails(facts, ("cmp", "Gt", ln, ("c", 0))) is not None
+        if div in nf and nonzero:
+            return "len is a non-zero multiple of mid (type invariant of the cursor + emptiness test): mid <= len"
     if path == "core::slice::<impl [T]>::copy_from_slice" and len(args) == 2:
         # panics iff the two lengths differ
         try:
